@@ -21,7 +21,7 @@ Law(fn) == CASE fn \in {"Clone", "Round", "Round.default", "project.Geometry"} -
              [] fn = "smartclip.Geometry" -> "filtersmart"
              [] fn = "tilecover.Geometry" -> "union"
              [] OTHER -> "none"
-ReadOnly(fn) == fn \in {"Clone", "planar.Area", "planar.Length", "planar.CentroidArea.area", "planar.DistanceFrom",
+ReadOnly(fn) == fn \in {"Clone", "Equal.view", "planar.Area", "planar.Length", "planar.CentroidArea.area", "planar.DistanceFrom",
                         "planar.DistanceFromWithIndex", "planar.DistanceFrom.in", "planar.DistanceFromWithIndex.in", "geo.Area", "geo.Length", "geo.LengthHaversine",
                         "tilecover.Geometry",
                         "wkb.Marshal", "ewkb.Marshal", "wkt.Marshal", "geojson.Geometry", "geojson.Feature"}
